@@ -313,6 +313,11 @@ EXPLAIN = {
 }
 
 
+# thorough: 6 of the 20 (style, compound, unnest) combinations per first name, rotated with the name so that every combination meets
+# every name class (all 20 per name measured 76 CPU-minutes on 16 cores: sized down to about half an hour)
+THOROUGH_ROT = (0, 3, 7, 10, 13, 17)
+
+
 def plan(tier):
     jobs = []
     quick = tier == "quick"
@@ -323,15 +328,21 @@ def plan(tier):
         for ci, (s, c, u) in enumerate(combos):
             if quick and ci != (k0 * 7) % len(combos):
                 continue
+            if not quick and (ci - k0 * 7) % len(combos) not in THOROUGH_ROT:
+                continue
             jobs.append(Job("pipeline_json", {"k0": k0, "style": s, "compound": c, "unnest": u}, 600, 60, note="selector driven"))
     for k0 in range(len(XNAMES)):
         for ci, (s, c, u) in enumerate(combos):
             if quick and ci != (k0 * 3 + 1) % len(combos):
                 continue
+            if not quick and (ci - k0 * 3 - 1) % len(combos) not in THOROUGH_ROT:
+                continue
             jobs.append(Job("pipeline_xsd", {"k0": k0, "style": s, "compound": c, "unnest": u}, 600, 60, note="selector driven"))
     for k0 in range(len(MNAMES)):
         for ci, (s, c, u) in enumerate(combos):
             if quick and ci not in ((k0 * 3 + 2) % len(combos), (k0 * 3 + 9) % len(combos)):
+                continue
+            if not quick and (ci - k0 * 3 - 2) % len(combos) not in THOROUGH_ROT:
                 continue
             jobs.append(Job("pipeline_multi", {"k0": k0, "style": s, "compound": c, "unnest": u}, 900, 60, note="selector driven, three namespaces / files"))
     return jobs
